@@ -212,6 +212,18 @@ theorem nreach_accept {s : Streams} {H : List Nat} (h : NReach s H) (he : ErrOK 
   let g := nreach_good h he
   ((nextIncoming_npi g.g3.good.npi g.j g.g3.good.hok).2.2.2 k hk).2.2.2.2.2
 
+/-- the server accept path in a reachable state -/
+theorem nreach_accept_path {s : Streams} {H : List Nat} (h : NReach s H) (he : ErrOK s) :
+    s.nextIncoming.1.panicked = none ∧
+    ∀ k, s.nextIncoming.2 = some k → ((s.nextIncoming.1).recvTakeRequest k).1.panicked = none ∧
+      ((s.nextIncoming.1).recvTakeRequest k).2.isSome = true := by
+  have g := nreach_good h he
+  obtain ⟨hn, hj, _, hs⟩ := nextIncoming_npi g.g3.good.npi g.j g.g3.good.hok
+  refine ⟨hn.np, fun k hk => ?_⟩
+  obtain ⟨_, _, _, hl, hr, hq⟩ := hs k hk
+  have := recvTakeRequest_npi hn hj hl (by omega) hq
+  exact ⟨this.1.np, this.2.2⟩
+
 /-- witness: the stream layer of a new server connection -/
 def wInitS : Streams :=
   { counts := { isServer := true },
